@@ -148,9 +148,12 @@ NewLoader(dev, st, s, modenv) ==
 \* outcome of one load request:
 \*   got       what the consumer obtained: "table" "string" "nil" "text" (expansion of an #invoke) "error"
 \*   chunkenv  {} or {environment the chunk body ran in}
-\*   fnenv     {} or {environment of the functions of the module value that are called afterwards}
+\*   fnenv     {} or {environment the module value handed to the consumer comes from: its functions run there}
 O(got, ce, fe, st) == [got |-> got, chunkenv |-> ce, fnenv |-> fe, st |-> st]
 FnEnv(v) == IF v.kind = "table" THEN {v.env} ELSE {}
+\* what a consumer that receives the value itself learns: the functions of a table run in the environment of the
+\* chunk that made it; a string is handed over as it was computed there (the probe's report of what it saw)
+Carried(v) == IF v.kind \in {"table", "string"} THEN {v.env} ELSE {}
 
 \* _lua_invoke(mod_name, "main", frame): envNew = clone of _python_top_env() or of the base environment
 InvokeLike(dev, st, s, envNew) ==
@@ -167,27 +170,27 @@ InvokeLike(dev, st, s, envNew) ==
 
 \* new_require(modname): mod_env = _python_top_env() or env
 RequireLike(dev, st, s) ==
-  IF st.pl.has THEN O(st.pl.kind, {}, FnEnv(st.pl), st)
+  IF st.pl.has THEN O(st.pl.kind, {}, Carried(st.pl), st)
   ELSE LET ld == NewLoader(dev, st, s, "inv") IN
        IF ~ld.ok THEN O("error", {}, {}, ld.st)                               \* assert(fn, msg)
        ELSE IF ld.kind = "raise" THEN O("error", {ld.env}, {}, ld.st)
        ELSE IF ld.kind = "nil" THEN O("nil", {ld.env}, {}, ld.st)            \* not saved
-       ELSE LET v == Val(ld.kind, ld.env) IN O(ld.kind, {ld.env}, FnEnv(v), [ld.st EXCEPT !.pl = v])
+       ELSE LET v == Val(ld.kind, ld.env) IN O(ld.kind, {ld.env}, Carried(v), [ld.st EXCEPT !.pl = v])
 
 DataEnv(dev) == IF "DataEnvFromHost" \in dev THEN "HOSTCLONE" ELSE "data"
 
 \* new_loadData(modname): mod_env = mw_clone(env)
 LoadData(dev, st, s) ==
-  IF st.dc.has THEN O(st.dc.kind, {}, FnEnv(st.dc), st)
+  IF st.dc.has THEN O(st.dc.kind, {}, Carried(st.dc), st)
   ELSE LET ld == NewLoader(dev, st, s, DataEnv(dev)) IN
        IF ~ld.ok THEN O("error", {}, {}, ld.st)
        ELSE IF ld.kind = "raise" THEN O("error", {ld.env}, {}, ld.st)
        ELSE IF ld.kind = "nil" THEN O("nil", {ld.env}, {}, ld.st)            \* loaddata_cache[modname] = nil
-       ELSE LET v == Val(ld.kind, ld.env) IN O(ld.kind, {ld.env}, FnEnv(v), [ld.st EXCEPT !.dc = v])
+       ELSE LET v == Val(ld.kind, ld.env) IN O(ld.kind, {ld.env}, Carried(v), [ld.st EXCEPT !.dc = v])
 
 \* new_loadJsonData(page): same cache; otherwise the text goes to the JSON decoder, never to the compiler
 LoadJson(dev, st, s) ==
-  IF st.dc.has THEN O(st.dc.kind, {}, FnEnv(st.dc), st)
+  IF st.dc.has THEN O(st.dc.kind, {}, Carried(st.dc), st)
   ELSE O("error", {}, {}, st)
 
 \* a module calling _new_loader(name) / package.loaders[2](name) and then the chunk
@@ -195,7 +198,7 @@ Loader(dev, st, s) ==
   LET ld == NewLoader(dev, st, s, "inv") IN
   IF ~ld.ok THEN O("error", {}, {}, ld.st)
   ELSE IF ld.kind = "raise" THEN O("error", {ld.env}, {}, ld.st)
-  ELSE O(ld.kind, {ld.env}, FnEnv(Val(ld.kind, ld.env)), ld.st)
+  ELSE O(ld.kind, {ld.env}, Carried(Val(ld.kind, ld.env)), ld.st)
 
 Enter(dev, st, s, e) ==
   CASE e \in TopLevel -> InvokeLike(dev, st, s, "inv")
